@@ -584,7 +584,7 @@ class VcfReader:
     @staticmethod
     def _extract_HP_phase(call: VariantRecordSample) -> Optional[VariantCallPhase]:
         hp = call.get("HP")
-        if hp is None or hp == (".",):
+        if hp is None or hp == (".",) or hp == (None,):
             return None
         fields = [[int(x) for x in s.split("-")] for s in hp]
         for i in range(len(fields)):
@@ -1259,8 +1259,9 @@ class PhasedVcfWriter(VcfAugmenter):
                     )
                     self._set_phasing_tags(call, components[pos], phases[pos], haploid_component)
                 else:
-                    # Unphased
-                    call[self.tag] = None
+                    # Unphased. HP is a string: pysam writes None as an empty field there,
+                    # which cannot be read back, so write the missing value explicitly.
+                    call[self.tag] = "." if self.tag == "HP" else None
             prev_pos = pos
         return genotype_changes
 
